@@ -109,6 +109,33 @@ VIEWS = {
 LAYOUT = Layout(CLS, FIELDS, aliases={"Key": "Pair[Tup,Tup]"}, views=VIEWS, multi={"wf": wf, "view_eq": view_eq})
 
 
+# weight handed to the key k by the first j positions of a batch (edge_list, weights): fold-defined
+BSUM = z3.Function("bsum_d", z3.ArraySort(T.I, DK.sort()), T.B, z3.ArraySort(T.I, T.R), T.I, DK.sort(), T.R)
+_be, _bh, _bw = z3.Const("_bed", z3.ArraySort(T.I, DK.sort())), z3.Bool("_bhd"), z3.Const("_bwd", z3.ArraySort(T.I, T.R))
+_bj, _bk = z3.Int("_bjd"), z3.Const("_bkd", DK.sort())
+TH.EXTRA.update({
+    "bsum_d_0 (definition)": z3.ForAll([_be, _bh, _bw, _bk], BSUM(_be, _bh, _bw, 0, _bk) == 0, patterns=[BSUM(_be, _bh, _bw, 0, _bk)]),
+    "bsum_d_step (definition)": z3.ForAll([_be, _bh, _bw, _bj, _bk], z3.Implies(_bj >= 0,
+        BSUM(_be, _bh, _bw, _bj + 1, _bk) == BSUM(_be, _bh, _bw, _bj, _bk) +
+        z3.If(DK.mk(TH.canon(DK.fst(_be[_bj])), TH.canon(DK.snd(_be[_bj]))) == _bk, z3.If(_bh, _bw[_bj], z3.RealVal(1)), z3.RealVal(0))),
+        patterns=[BSUM(_be, _bh, _bw, _bj + 1, _bk)]),
+})
+
+
+def _bsum(eng, p, h, el, ws, j, k):
+    # `weights[i] if weights else None`: an empty weight list counts as no weights
+    if ws.ty == T.NONE:
+        hw, aw = z3.BoolVal(False), z3.K(T.I, z3.RealVal(0))
+    elif isinstance(ws.ty, T.Opt):
+        hw, aw = z3.And(z3.Not(ws.is_none), ws.val.len > 0), ws.val.at
+    else:
+        hw, aw = ws.len > 0, ws.at
+    return T.sv_real(BSUM(el.at, hw, aw, eng.coerce(j, T.INT).t, k.t))
+
+
+VIEWS["bsum"] = _bsum
+
+
 def C(name, **kw):
     kw.setdefault("properties", ["C02"])
     return Contract(f"{CLS}.{name}", FILE, [CLS, name], self_cls=CLS, **kw)
@@ -377,6 +404,13 @@ CONTRACTS = [
           "weighted": "weighted(self) == weighted(old(self))", "HM": "HM(self) == HM(old(self))"}}),
     C("num_nodes", params={}, result="Int", pure=True, ensures={"result": "result == card(V(self))"}),
     C("num_edges", params={}, result="Int", pure=True, ensures={"result": "result == card(E(self))"}),
+    C("is_uniform", params={}, result="Bool", pure=True, locals={"sz": "Opt[Int]", "uniform": "Bool"},
+      requires={"wf": "wf(self)"},
+      ensures={"result": "result == all(len(fst(k1)) + len(snd(k1)) == len(fst(k2)) + len(snd(k2)) for k1 in E(self) for k2 in E(self))"},
+      invariants={0: {"uniform": "uniform",
+                      "none": "(sz is None) == all(k not in _done0 for k in Key)",
+                      "same": "implies(sz is not None, all(len(fst(k)) + len(snd(k)) == sz for k in _done0))",
+                      "witness": "implies(sz is not None, any(len(fst(k)) + len(snd(k)) == sz for k in _done0))"}}),
     C("get_sizes", params={}, result="Bag[Int]", pure=True,
       ensures={"len": "len(result) == card(E(self))",
                "members": "all(implies(count(result, s) >= 1, any(len(fst(k)) + len(snd(k)) == s for k in E(self))) for s in Int)",
@@ -407,6 +441,14 @@ CONTRACTS = [
       raises={"ValueError": "(order is not None and size is not None) or node not in V(self)"},
       ensures={"result": "result == card({k for k in E(self) if (node in fst(k) or node in snd(k)) and sel(self, k, order, size, False)})"},
       properties=["C02", "C08"]),
+    Contract(f"{CLS}.get_weights@list", FILE, [CLS, "get_weights"], self_cls=CLS, properties=["C02"],
+      params={"order": "Opt[Int]", "size": "Opt[Int]", "up_to": "Bool", "asdict": "Bool"}, fixed={"asdict": False},
+      result="Bag[Real]", pure=True,
+      requires={"wf": "wf(self)"},
+      raises={"ValueError": "order is not None and size is not None"},
+      ensures={"len": "len(result) == card({k for k in E(self) if sel(self, k, order, size, up_to)})",
+               "members": "all(implies(count(result, x) >= 1, any(sel(self, k, order, size, up_to) and W(self, k) == x for k in E(self))) for x in Real)",
+               "covers": "all(implies(sel(self, k, order, size, up_to), count(result, W(self, k)) >= 1) for k in E(self))"}),
     Contract(f"{CLS}.get_weights@dict", FILE, [CLS, "get_weights"], self_cls=CLS, properties=["C02"],
       params={"order": "Opt[Int]", "size": "Opt[Int]", "up_to": "Bool", "asdict": "Bool"}, fixed={"asdict": True},
       result="Map[Key,Real]", pure=True,
@@ -434,6 +476,28 @@ CONTRACTS = [
       invariants={0: {"neigh": "all((m in neigh) == any(count(_done0, k) >= 1 and (m in fst(k) or m in snd(k)) for k in Key) for m in Node)"},
                   1: {"neigh": "all((m in neigh) == any(count(_done1, k) >= 1 and (m in fst(k) or m in snd(k)) for k in Key) for m in Node)"}},
       properties=["C02", "C08"]),
+    # batched insertion = fold of add_edge over the list (positional pairing with weights and metadata)
+    C("add_edges", params={"edge_list": "Seq[Key]", "weights": "Opt[Seq[Real]]", "metadata": "Opt[Seq[Meta]]"},
+      requires={"wf": "wf(self)",
+                "edges_ok": "all(distinct(fst(edge_list[m])) and distinct(snd(edge_list[m])) and len(fst(edge_list[m])) >= 1 and len(snd(edge_list[m])) >= 1 "
+                            "and all(n not in snd(edge_list[m]) for n in fst(edge_list[m])) for m in Int if 0 <= m and m < len(edge_list))",
+                "weights_ok": "implies(weights is not None, weighted(self))",
+                "metadata_len": "implies(metadata is not None and len(metadata) > 0, len(metadata) >= len(edge_list))"},
+      raises={"ValueError": "weights is not None and len(weights) != len(edge_list)"},
+      modifies=["_adj_source", "_adj_target", "_node_metadata", "_edge_list", "_reverse_edge_list", "_weights", "_edge_metadata", "_next_edge_id"],
+      ensures={"wf": "wf(self)",
+               "V": "all((n in V(self)) == (n in V(old(self)) or any(0 <= m and m < len(edge_list) and (n in fst(edge_list[m]) or n in snd(edge_list[m])) for m in Int)) for n in Node)",
+               "E": "all((k in E(self)) == (k in E(old(self)) or any(0 <= m and m < len(edge_list) and canon(edge_list[m]) == k for m in Int)) for k in Key)",
+               "W": "implies(weighted(self), all(W(self, k) == (W(old(self), k) if k in E(old(self)) else 0) + bsum(self, edge_list, weights, len(edge_list), k) for k in E(self)))",
+               **NODE_MD_KEPT, **SAME_WEIGHTED},
+      invariants={0: {
+          "wf": "wf(self)",
+          "V": "all((n in V(self)) == (n in V(old(self)) or any(0 <= m and m < _j0 and (n in fst(edge_list[m]) or n in snd(edge_list[m])) for m in Int)) for n in Node)",
+          "E": "all((k in E(self)) == (k in E(old(self)) or any(0 <= m and m < _j0 and canon(edge_list[m]) == k for m in Int)) for k in Key)",
+          "W": "implies(weighted(self), all(W(self, k) == (W(old(self), k) if k in E(old(self)) else 0) + bsum(self, edge_list, weights, _j0, k) for k in E(self)))",
+          "W0": "all(bsum(self, edge_list, weights, _j0, k) == 0 for k in Key if k not in E(self))",
+          "NM_kept": "all(NM(self, n) == NM(old(self), n) for n in V(old(self)))",
+          "weighted": "weighted(self) == weighted(old(self))", "HM": "HM(self) == HM(old(self))"}}),
     # ------------------------------------------------------------------ hypergraphx/measures/directed/degree.py (C12)
     Contract("in_degree", "hypergraphx/measures/directed/degree.py", ["in_degree"], properties=["C12"],
       params={"hypergraph": "Obj[DirectedHypergraph]", "node": "Node", "order": "Opt[Int]", "size": "Opt[Int]"}, result="Int", pure=True,
